@@ -523,6 +523,105 @@ def random_case(rng, nmax=6, kmax=8, ordinal=False, collide=False):
     raise RuntimeError("could not generate a case")
 
 
+def random_chain_case(rng):
+    """Long chains: a backbone 0 -> 1 -> ... -> k with shortcuts, detours, back edges, parallel offers and
+    conditional refusals, so that longer alternatives, failed walks and cycles are the norm."""
+    for _ in range(50):
+        n = rng.randint(3, 6)
+        ts = []
+        for i in range(n):
+            kind = rng.choice("ccca")
+            bases = []
+            if i and rng.random() < 0.25:
+                bases = [rng.randrange(i)]
+            ts.append("%s%d:%s" % (kind, i, ",".join(map(str, bases))))
+        spec = "T=" + ";".join(ts)
+        try:
+            hier = Hier(spec)
+        except TypeError:
+            continue
+        order = list(range(n))
+        rng.shuffle(order)
+        offers = []
+        nid = 0
+        for a, b in zip(order, order[1:]):
+            if rng.random() < 0.9:
+                offers.append((nid, a, b, hier.key_of(a), rng.choice("nnnfp")))
+                nid += 1
+        extra = rng.randint(0, max(0, 8 - len(offers)))
+        for _ in range(extra):
+            a, b = rng.randrange(n), rng.randrange(n)
+            if offers and rng.random() < 0.15:
+                o = rng.choice(offers)
+                if o[4] == "n":
+                    offers.append(o)
+                    continue
+            offers.append((nid, a, b, hier.key_of(a), "n"))
+            nid += 1
+        rng.shuffle(offers)
+        offers = offers[:8]
+        info = info_of(hier, offers)
+        queries = []
+        for _ in range(rng.choice([2, 3, 4])):
+            s, t = order[rng.randrange(0, max(1, n // 2))], order[rng.randrange(n // 2, n)]
+            queries.append("%s %d %d" % (rng.choice("aaads"), s, t))
+        queries.append("t %s %d %d %d %d" % (rng.choice("SA"), rng.choice([1, 2]), rng.choice([0, 1]), order[0], order[-1]))
+        queries = list(dict.fromkeys(queries))
+        if too_big(hier, info, queries):
+            continue
+        ft = random_ftab(rng, hier, offers, info, queries)
+        for _ in range(rng.choice([0, 1, 2])):
+            more = random_ftab(rng, hier, offers, info, queries)
+            ft.update(more)
+        return make_line(hier, offers, ft, queries)
+    raise RuntimeError("could not generate a chain case")
+
+
+def random_specific_case(rng):
+    """One-step specificity: a source type providing several protocols (by inheritance and by ABC
+    registration, so that MRO distances tie), protocols related by subclassing, one offer per protocol
+    (some several) straight to the target, registered in random order, some refusing."""
+    for _ in range(50):
+        k = rng.randint(2, 4)
+        fam = rng.choice(["i", "a", "mixed"])
+        ts = []
+        for i in range(k):
+            kind = {"i": "i", "a": "a", "mixed": rng.choice("aac")}[fam]
+            bases = []
+            if i and rng.random() < 0.6:
+                bases = rng.sample(range(i), rng.choice([1, 1, 2]) if i > 1 else 1)
+            ts.append("%s%d:%s" % (kind, i, ",".join(map(str, bases))))
+        src = k
+        sb = rng.sample(range(k), rng.choice([0, 0, 1, 2])) if fam != "i" else []
+        ts.append("%s%d:%s" % ("h" if fam == "i" else "c", src, ",".join(map(str, sb))))
+        tgt = k + 1
+        ts.append("c%d:" % tgt)
+        regs = []
+        for i in range(k):
+            if i not in sb and ts[i][0] in "ai" and rng.random() < 0.75:
+                regs.append("%d<%d" % (i, src))
+        spec = "T=" + ";".join(ts) + ("/R=" + ";".join(regs) if regs else "")
+        try:
+            hier = Hier(spec)
+        except TypeError:
+            continue
+        offers = []
+        nid = 0
+        for i in range(k):
+            for _ in range(rng.choice([1, 1, 1, 2])):
+                offers.append((nid, i, tgt, hier.key_of(i), "n"))
+                nid += 1
+        rng.shuffle(offers)
+        offers = offers[:8]
+        ft = {}
+        for o in offers:
+            if rng.random() < 0.2:
+                ft["%d@-" % o[0]] = "n"
+        queries = ["a %d %d" % (src, tgt), "t S 1 1 %d %d" % (src, tgt)] + ["m %d %d" % (src, i) for i in range(k)]
+        return make_line(hier, offers, ft, queries)
+    raise RuntimeError("could not generate a specificity case")
+
+
 # ---- exhaustive small scope ------------------------------------------------
 
 HIER3 = [
